@@ -229,6 +229,33 @@ func init() {
 								c.Violation("accepted-without-output", "exit 0 but no output under "+fl, fm, nil)
 							}
 						}
+						// spellings of the same flag values: explicit =true / =false, repeated flags (the last one wins)
+						if len(sel) <= 2 {
+							P_, S_ := "--ignore-missing-params", "--ignore-missing-services"
+							for _, sp := range []struct{ spelled, canonical []string }{
+								{[]string{P_ + "=false"}, nil},
+								{[]string{S_ + "=false"}, nil},
+								{[]string{P_ + "=false", S_ + "=false"}, nil},
+								{[]string{P_ + "=true"}, []string{P_}},
+								{[]string{S_ + "=true"}, []string{S_}},
+								{[]string{P_, P_ + "=false"}, nil},
+								{[]string{S_, S_ + "=false"}, nil},
+								{[]string{P_ + "=false", P_}, []string{P_}},
+								{[]string{P_ + "=false", S_}, []string{S_}},
+								{[]string{P_, S_ + "=false"}, []string{P_}},
+								{[]string{"--stub=false", S_}, []string{S_}},
+								{[]string{"--quiet=false", P_, S_ + "=true"}, []string{P_, S_}},
+							} {
+								a := w.Build(files, sp.spelled...)
+								b := w.Build(files, sp.canonical...)
+								c.Count("runs")
+								c.Count("evaluations_extra")
+								if a.Exit != b.Exit || strings.Join(ErrorLines(a.Out), "\n") != strings.Join(ErrorLines(b.Out), "\n") || a.Output != b.Output {
+									fl := strings.Join(sp.spelled, " ")
+									c.Violation("flag-spelling:"+fl, fmt.Sprintf("defects %s: %q must behave like %q; exit %d vs %d\n%s\n--- vs ---\n%s", desc, fl, strings.Join(sp.canonical, " "), a.Exit, b.Exit, strings.Join(ErrorLines(a.Out), "\n"), strings.Join(ErrorLines(b.Out), "\n")), fm, map[string]any{"flags": sp.spelled})
+								}
+							}
+						}
 					})
 				})
 			}
